@@ -5,6 +5,7 @@ import random
 
 import tlc
 import common
+import pipeline
 import sr
 
 ASSUME = [
@@ -106,6 +107,7 @@ def run(pid, tier, seed):
     for t in traces:
         t.pop("host")
     res, runs = tlc.validate_parallel("SocksReqTrace", "SocksReqTrace.cfg", traces, nproc=14, chunk=3000, timeout=3000)
+    pipeline.selftest_from(rep, "SocksReqTrace", "SocksReqTrace.cfg", traces, res, keys=("first", "mid", "second", "err"))
     for r in runs:
         rep.cov["states"] += r.distinct
         rep.cov["transitions"] += r.generated
